@@ -911,7 +911,9 @@ func (m *Model) evalCall(x *Call) (Val, bool) {
 		if v.K == KFunc || v.K == KNative {
 			m.fail("cannot pass a function")
 		}
-		if v.K == KArr && !fr {
+		// an array handed to a user function (parameter) or to push (element) gains a second reference that
+		// outlives the call; the other natives only look at their arguments
+		if v.K == KArr && !fr && (callee.K == KFunc || (callee.K == KNative && callee.S == "array.push")) {
 			v.A.shared = true
 		}
 		if v.K == KUnset {
